@@ -186,6 +186,26 @@ def T_try_in_loop_continue_far(n):
     return "var s = 0, i = 0; do { i++; try { if (i % 2) continue; " + "s += 1; " * n + "} finally { s += 0; } } while (i < 4); s", 2 * n
 
 
+# one big function reached through every call path of the VM (the interpreter has more than one decode loop): jump operands beyond
+# 32767 (the signed 16-bit edge) as well as beyond 255 must be read the same way on each path
+_BIGFN = "function big(x) { var s = 0; if (x) { " + "%s" + "} else { s = -1; } for (var i = 0; i < 2; i++) { s += 0; } return s; }\n"
+_PATHS = {"direct": "big(1) + big(0)", "map": "[1].map(big)[0] + [0].map(big)[0]", "forEach": "var t = 0; [1, 0].forEach(function (v) { t += big(v); }); t",
+          "call": "big.call(null, 1) + big.apply(null, [0])", "bind": "big.bind(null, 1)() + big.bind(null, 0)()", "getter": "({get g() { return big(1); }}).g + ({get g() { return big(0); }}).g",
+          "valueOf": "({valueOf: function () { return big(1); }}) * 1 + ({valueOf: function () { return big(0); }}) * 1", "sort": "var t = 0; [2, 1].sort(function (a, b) { t = big(1) + big(0); return a - b; }); t",
+          "replace": "var t = 0; 'a'.replace('a', function () { t = big(1) + big(0); return ''; }); t", "eval": "(0, eval)('big(1) + big(0)')", "new": "function K() { this.v = big(1) + big(0); } new K().v",
+          "nested-natives": "[1].map(function () { return [1].filter(function () { return true; }).map(big)[0] + big(0); })[0]", "reduce": "[1, 0].reduce(function (a, v) { return a + big(v); }, 0)"}
+
+
+def _mk_path(path):
+    def T(n):
+        return _BIGFN % ("s += 1; " * n) + _PATHS[path], n - 1
+    return T
+
+
+for _pn in _PATHS:
+    globals()["T_bigfn_via_" + _pn.replace("-", "_")] = _mk_path(_pn)
+
+
 def T_nested_arrays(n):
     return "[" * n + "1" + "]" * n + ".length", 1
 
@@ -219,7 +239,7 @@ TEMPLATES = {k[2:]: v for k, v in list(globals().items()) if k.startswith("T_")}
 JUMPY = {"while", "for", "dowhile", "if_true", "if_false", "if_skip", "switch_bodies", "try", "and_chain", "or_chain",
          "loop_break_far", "loop_continue_far", "ternary_chain", "try_finally", "late_dowhile", "late_while",
          "late_loop_in_func", "dowhile_continue_far", "for_notest_continue_far", "labelled_continue_far", "labelled_continue_dowhile_far",
-         "forin_continue_far", "forof_break_far", "switch_in_loop_far", "try_in_loop_continue_far"}
+         "forin_continue_far", "forof_break_far", "switch_in_loop_far", "try_in_loop_continue_far"} | {"bigfn_via_" + p.replace("-", "_") for p in _PATHS}
 
 
 # ---------------- worker side -----------------------------------------------------------------
@@ -341,6 +361,8 @@ def main(ctx):
         if name in JUMPY:
             # units are ~10 bytes each (s += 1;) or ~6 (chains): cross 65535 for this template in quick as well
             ns += [6552, 6553, 6554, 6560, 7000] if name not in ("and_chain", "or_chain", "ternary_chain") else [9362, 9363, 10922, 10923, 13107, 16384]
+            if name.startswith("bigfn_via_"):
+                ns += [3270, 3275, 3276, 3277, 3280, 3300, 4000, 6000]     # around bytecode offset 32768
         ns += [rng.randint(2, 300), rng.randint(300, 5000)]
         if not ctx.quick:
             ns += [rng.randint(5000, 80000) for _ in range(3)]
